@@ -30,7 +30,7 @@ RULE = ("cases = (dataset, 1-3 shared variables, pool of 2-4 queries, history of
         "with a fresh twin evaluated once and with the reference, and the data is compared with a snapshot at the end. "
         "Non-trivial = the history contains an abandoned or aborted evaluation followed by a full evaluation of a query "
         "sharing a variable with it whose result is a non-empty proper subset of the product; distinct = canonical JSON.")
-BUDGET = {"quick": (4, 300), "thorough": (16, 3000)}
+BUDGET = {"quick": (4, 300), "thorough": (16, 1200)}
 ASSUMPTIONS = ["two live result iterators over the same variables are never interleaved (take k, then close/drop)",
                "the fault is raised by user code (a @predicate function); nothing is asserted about its propagation, only "
                "about what later evaluations return"]
